@@ -1,4 +1,5 @@
 import PlzVerif.Lemmas.CMapWake
+import PlzVerif.Lemmas.CMapTorn
 import PlzVerif.Lemmas.CMapFacts
 import PlzVerif.Generated.C15
 /-!
@@ -77,8 +78,7 @@ theorem C15_linearizable_strong_partial {tr : List (Ev V)} {s : Sys V} (h : Exec
     (hv : noValues tr) : Linearizable c true tr :=
   ⟨abs s, (aexec_strong_of_noValues c (exec_sim c h) (by intro t i acc h; cases h) hv).1⟩
 
-/-- the two-shard map of the witness (`hasher = id`) -/
-def wcfg : Cfg Nat := ⟨2, fun k => k % 2, fun _ => false⟩
+open PlzVerif.CMap.Torn (wcfg tornTrace torn_not_linearizable)
 
 /-- `Values()` starts, reads shard 0 (empty); `Add(0,5)` returns, then `Add(1,6)` returns; `Values()` reads shard 1. -/
 def tornSchedule : List (Tid × Option (Call Nat)) :=
@@ -101,6 +101,30 @@ theorem C15_witness_values_torn :
     decide
   intro s hs
   simpa using List.all_eq_true.mp this s hs
+
+/-- **Witness at full strength: the implementation produces a history that is not linearizable** when `Values`
+    is required to be one whole-map snapshot: `Values()` called; `Add(0,5)` called and returned true; `Set(1,6)`
+    called and returned; `Values()` returns `[6]`.  No execution of the atomic automaton has this history
+    (`Lemmas/CMapTorn.lean`: an invariant over all its executions whose trace is a prefix of it), while the
+    two-shard implementation has it — and it is linearizable once `Values` is read shard by shard. -/
+theorem C15_witness_values_not_linearizable :
+    ∃ s : Sys Nat, Exec wcfg Sys.init tornTrace s ∧ ¬ Linearizable wcfg true tornTrace ∧
+      Linearizable wcfg false tornTrace := by
+  have e0 := Exec.nil (c := wcfg) Sys.init
+  have e1 := Exec.ev e0 (Step.invoke _ 0 .values rfl rfl)
+  have e2 := Exec.tau e1 (Step.valuesCS _ 0 0 [] (by simp [upd, startPC]) (by decide))
+  have e3 := Exec.ev e2 (Step.invoke _ 1 (.add 0 5) (by simp [upd, Sys.init]) rfl)
+  have e4 := Exec.tau e3 (Step.setCS _ 1 0 5 false (by simp [upd, startPC]))
+  have e5 := Exec.ev e4 (Step.ret _ 1 (.bool true) (by simp [upd]; rfl) rfl)
+  have e6 := Exec.ev e5 (Step.invoke _ 1 (.set 1 6) (by simp [upd]) rfl)
+  have e7 := Exec.tau e6 (Step.setCS _ 1 1 6 true (by simp [upd, startPC]))
+  have e8 := Exec.ev e7 (Step.ret _ 1 .unit (by simp [upd]) rfl)
+  have e9 := Exec.tau e8 (Step.valuesCS _ 0 1 [] (by simp [upd]; rfl) (by decide))
+  have e10 := Exec.tau e9 (Step.valuesEnd _ 0 2 [6] (by simp [upd]; rfl) (by decide))
+  have e11 := Exec.ev e10 (Step.ret _ 0 (.vals [6]) (by simp [upd]) rfl)
+  obtain ⟨s, hex⟩ : ∃ s, Exec wcfg Sys.init tornTrace s :=
+    ⟨_, by simpa [tornTrace, Torn.e0, Torn.e1, Torn.e2, Torn.e3, Torn.e4, Torn.e5] using e11⟩
+  exact ⟨s, hex, torn_not_linearizable, C15_linearizable wcfg hex⟩
 
 /-! ## 2. Wake-ups -/
 
